@@ -283,7 +283,9 @@ def predictor_obligations(rep):
                     ok, _ = ex.valid(z(look[0].key) == LOWER(want), pc=o.pc)
                     if not ok:
                         return f'metadata key is {look[0].key!r}, expected lower(namespace.name) with the version suffix split off'
-                    if o.value is st['found']:
+                    if o.value is not None and o.value is not st['found'] and getattr(o.value, 'copy_of', None) is not st['found']:
+                        return f'returns {o.value!r}, neither the metadata found nor a copy of it'
+                    if o.value is st['found'] or getattr(o.value, 'copy_of', None) is st['found']:
                         ups = dict((k, v) for k, v in o.value.updates if isinstance(k, str))
                         ver = ups.get('version', '<unset>')
                         wantv = parts[-1] if (st['version'] and len(parts) > 1) else None
